@@ -2,7 +2,7 @@ package rules
 
 func init() {
 	reg("C09", &PropSpec{
-		Rules:       []Rule{r("J1", RuleJ1), r("ID1", RuleID1), r("ID2", RuleID2), r("X1", RuleX1), r("TG", RuleTG), r("M1", RuleM1), r("D4", RuleD4), r("RV1", RuleRV1), r("TI1", RuleTI1)},
+		Rules:       []Rule{r("J1", RuleJ1), r("ID1", RuleID1), r("ID2", RuleID2), r("X1", RuleX1), r("TG", RuleTG), r("M1", RuleM1), r("D4", RuleD4), r("RV1", RuleRV1), r("TI1", RuleTI1), r("UP1", RuleUP1), r("MB1", RuleMB1)},
 		Explanation: "Decided: the text form of each structured map key is injective (J1: one Sprintf with at most one free-form operand; today JsonRpcInteractionId has two - known finding F12); every interaction is stored under the id it was built from and copies id/protocol/method/path from it (ID1); serialisation switches list every declared notation/method so serialising an accepted catalog has no failure arm a declared constant reaches (X1); tags and interactions are registered together, tag names come from members of the Tags collection, no interaction is left without a tag (TG); every model field is serialised (M1); ordered collections serialise in insertion order with one entry per key (D4); the validation stage checks every response, not a chosen one (RV1); Title() returns Info.Title itself (TI1). Not decided: UTF-8 validity of names, equality of indented and compact forms (encoding/json), existence of every used type beyond the library's own rejection. MarshalText of every interaction id is []byte(String()) of its receiver (ID2).",
 		Trusted:     trustedCommon,
 	})
